@@ -58,9 +58,9 @@ def configs(tier):
 def alphabet(tier, expanded, extent_a):
     nreg = 4 if tier == "quick" else len(REGIONS)
     ev = []
-    cs = [[0]] if expanded else [None]
+    cs = [[5]] if expanded else [None]
     if expanded and tier == "thorough":
-        cs.append([1])
+        cs.append([6])
     for r in range(nreg):
         for ver in (0, 1):
             for pol in (None, True, False):
@@ -127,8 +127,9 @@ class World:
         import xyzpy as xyz
 
         self.cfg, self.d = cfg, d
+        # (c defaults to the label the data is later expanded to)
         self.fs = [xfn.make_fn(["a", "b", "c"], kind="num", name="f05",
-                               version=v, defaults={"c": 0}) for v in (0, 1)]
+                               version=v, defaults={"c": 5}) for v in (0, 1)]
         self.path = os.path.join(d, cfg["name"])
         self.model = Model()
         self.h = self.new_harvester()
@@ -143,7 +144,7 @@ class World:
         return xyz.Harvester(r, data_name=self.path, engine=self.cfg["engine"])
 
     def val(self, ver, a, b, c):
-        return xfn.expected("num", dict(a=a, b=b, c=0 if c is None else c), ver)
+        return xfn.expected("num", dict(a=a, b=b, c=5 if c is None else c), ver)
 
     def new_cells(self, pts, ver, c):
         exp = self.model.expanded
@@ -272,7 +273,7 @@ class World:
                 m.disk = merged
         elif kind == "expand":
             try:
-                self.h.expand_dims("c", 0)
+                self.h.expand_dims("c", 5)
             except Exception as e:
                 vio.append(("raised:" + type(e).__name__,
                             "expand_dims raised %r" % e))
@@ -280,7 +281,7 @@ class World:
 
             def ex(dct):
                 return None if dct is None else {
-                    (k[0], tuple(sorted(k[1] + (("c", 0),)))): v
+                    (k[0], tuple(sorted(k[1] + (("c", 5),)))): v
                     for k, v in dct.items()}
             src = m.mem if m.mem is not None else m.disk
             m.mem = ex(src)
